@@ -608,3 +608,48 @@ func ownerOf(P *Program, fn *ssa.Function) *ssa.Function {
 	ownerMemo[fn] = res
 	return res
 }
+
+// conjunctsOf: a condition that was computed into a boolean before it is tested (`c := a && b; if c`) is true only
+// if every operand is: the operands of a true conjunction, each with its polarity (the atom itself otherwise).
+func conjunctsOf(a Atom) []Atom {
+	a = normAtom(a)
+	phi, ok := a.V.(*ssa.Phi)
+	if !ok || a.Want != True || !isBoolType(phi.Type()) {
+		return []Atom{a}
+	}
+	var out []Atom
+	for i, e := range phi.Edges {
+		if bc, isB := boolConst(e); isB {
+			if bc {
+				return []Atom{a} // a disjunction: true for several reasons
+			}
+			continue
+		}
+		out = append(out, conjunctsOf(Atom{Fn: a.Fn, V: e, Want: True})...)
+		// the block this edge comes from is entered only when the earlier operands were true
+		p := phi.Block().Preds[i]
+		for depth := 0; depth < 4 && len(p.Preds) == 1; depth++ {
+			q := p.Preds[0]
+			if iff, isIf := q.Instrs[len(q.Instrs)-1].(*ssa.If); isIf {
+				want := True
+				if q.Succs[1] == p {
+					want = False
+				}
+				out = append(out, conjunctsOf(Atom{Fn: a.Fn, V: iff.Cond, Want: want})...)
+			}
+			if q == phi.Block() || phi.Block().Dominates(q) {
+				break
+			}
+			p = q
+			if len(q.Instrs) > 0 {
+				if _, isIf := q.Instrs[len(q.Instrs)-1].(*ssa.If); isIf {
+					break
+				}
+			}
+		}
+	}
+	if len(out) == 0 {
+		return []Atom{a}
+	}
+	return out
+}
